@@ -35,7 +35,7 @@ claim("C15",
       "get_is_chiral is executed symbolically from its real source over a symbolic-length sequence of integer rotation matrices, with np.linalg.det under an "
       "error-bounded floating-point contract (|computed - exact| <= delta < 1/2, not exactness) and a loop invariant 'no improper operation so far': "
       "post-condition result <=> no rotation has determinant -1, for every delta and every sequence. Basis independence: det(AB)=det A det B (polynomial identity). "
-      "Table part: SPACE_GROUP_INFO point group is proper <=> the Hall-database group is Sohncke, for all 230 groups (exactly 65).",
+      "The operations scanned are those of spglib's database entry for the detected Hall number (call-site obligation; the operations listed for the given cell are modelled as an unrelated sequence). Table part: SPACE_GROUP_INFO point group is proper <=> the Hall-database group is Sohncke, for all 230 groups (exactly 65). Shared dataset section: spglib is asked about the analysed structure with the analyzer's tolerance, the result is memoised, reset() clears every memoised attribute and set_system() resets first.",
       "A-SPG: spglib returns the complete set of unimodular integer rotations of the detected group; LU error bound for det; spglib Hall database as reference.",
       "symbolic execution with loop invariant + z3; exhaustive table obligations", "DESIGN.md §3 C15")
 
@@ -70,7 +70,7 @@ claim("C17",
       "Classifier.classify is executed symbolically from its real source (symbolic structure, all seed/tolerance modes) with get_dimensionality, the periodic search and the centre of mass under contract: "
       "the class is exactly the one the statement prescribes for each dimensionality value (None, 0 with/without single atom, 1, 2, 3); a Surface/Material2D result carries the region found, "
       "whose basis covers >= min_coverage of the atoms; the dimensionality is evaluated on a wrapped deep copy and the input is never mutated; Class2DWithCell views: basis and outliers partition the atoms; "
-      "cross_validate_region returns one of the regions produced.",
+      "cross_validate_region returns one of the regions produced. The obligations of get_dimensionality (C09) and get_distances (C10) are part of this check.",
       "'returns normally' for arbitrary structures is NOT covered (the periodic search is a float heuristic, L-HEUR); that the dimensionality value is right is C09; region basis in range is the get_region contract (assumed).",
       "symbolic execution against callee contracts + z3", "DESIGN.md §3 C17")
 
@@ -79,7 +79,7 @@ claim("C08",
       "source on every run and executed with symbolic parameters: the solved parameters regenerate the representative position modulo the lattice for all x,y,z, and the test positions are exactly all "
       "expressions x all centring translations (= the closed orbit, table lemma wy.orbit). The enclosing function is executed whole on sample positions with the periodic search under contract: parameters "
       "are reported only on the path where every test position matched, else ValueError; attributes set exactly for the free variables, values in [0,1); integer matrices make integer parameter shifts lattice shifts; "
-      "has-free-parameters flag evaluated on every (group, letter).",
+      "has-free-parameters flag evaluated on every single letter, every pair of letters and all letters of every group; the orbit-map section (letters/orbit ids of the conventional atoms are those of their crystallographic orbit) is shared with C12/C07.",
       "Real arithmetic for tolerances; _search_periodic_positions under an assumed contract (its cell.T metric is not examined); letters/orbits from spglib (A-SPG); the guard obligations run on sample shapes (4 positions), the per-entry obligations on all entries.",
       "mechanically extracted blocks executed symbolically per table entry + z3; exhaustive", "DESIGN.md §3 C08")
 
@@ -94,7 +94,7 @@ claim("C05",
 claim("C06",
       "MatID's own part of the normal form: the real selection code of _find_wyckoff_ground_state is executed for all 230 groups on a bounded family of occupancy patterns and on every relabelling of them "
       "by a tabulated normalizer (= the same crystal with the origin moved / equivalent sites permuted) and with atoms in another order: the resulting (letter, element) multiset is identical and no MatIDError is raised; "
-      "the set of letter permutations of every group is closed under composition, and the table represents every Euclidean normalizer of the generic metric (translation grid 1/24) modulo the group and the continuous translations - proper ones only in Sohncke groups (exhaustive table lemmas); get_material_id is executed on stub sets: independent of their order, depends on number, letters, elements, sizes and the 2D flag; "
+      "every tabulated letter permutation is the action of its own normalizer on the Wyckoff positions (nz.perm, nz.normalises), the set of letter permutations of every group is closed under composition, and the table represents every Euclidean normalizer of the generic metric (translation grid 1/24) modulo the group and the continuous translations - proper ones only in Sohncke groups (exhaustive table lemmas); get_material_id is executed on stub sets: independent of their order, depends on number, letters, elements, sizes and the 2D flag; "
       "label getters are pure look-ups.",
       "Invariance of spglib's dataset under re-presentation is assumed (A-SPG); SHA-512 prefix injective (A-HASH); occupancy family bounded (single letters, pairs); last clause of the statement not covered.",
       "execution of the real selection code over all groups x normalizers + exhaustive table obligations", "DESIGN.md §3 C06")
@@ -132,7 +132,7 @@ claim("C10",
 claim("C16",
       "Extended system and neighbour query: the same C++ obligations as C10 (every periodic image within the extension distance exactly once, originals first, no offset along non-periodic axes; a query returns a stored image "
       "iff it lies within the cutoff, with exact distance/displacement/offset; scanned bins suffice by lemma). Position matching: get_matches and get_matches_simple executed symbolically for a symbolic number of queries against "
-      "that query contract: nearest image within tolerance -> match if species agree / substitution otherwise, vacancy when nothing is within tolerance, with the image's cell offset (floor of the scaled position for vacancies), one entry per query.",
+      "that query contract: nearest image within tolerance -> match if species agree / substitution otherwise, vacancy when nothing is within tolerance, with the image's cell offset (floor of the scaled position for vacancies), one entry per query. The Python entry points get_cell_list / get_extended_system forward structure, extension and cutoff unchanged (symbolic extension and cutoff).",
       "As C10; precondition tolerance <= cutoff and extension >= tolerance is established at the construction site in the periodic search (not re-proved); A-NP argmin, A-ASE wrap_positions.",
       "clang AST -> translation -> symbolic execution; symbolic execution of the Python matching code with per-query obligations", "DESIGN.md §3 C16")
 
